@@ -5,6 +5,6 @@ export VERIF_DIR=$(pwd)
 (cd harness && go build -o ../bin/verifrun ./cmd/verifrun) || exit 2
 for p in "$@"; do
   t0=$(date +%s)
-  ./bin/verifrun -property $p -tier thorough 2>&1 | grep -E "VIOLATION|INCONCLUSIVE|NOTE|seed=" | cut -c1-400
+  { ./bin/verifrun -property $p -tier thorough -scale ${SCALE:-1} 2>&1; echo "  NOTE $p exit=$?"; } | grep -E "VIOLATION|INCONCLUSIVE|NOTE|seed=" | cut -c1-400
   echo "  $p thorough took $(( $(date +%s) - t0 ))s"
 done
